@@ -510,6 +510,30 @@ func init() {
 	intrinsics[U+"Bytes32"] = func(c *Ctx, fr *frame, fn *ssa.Function, a []value, pos token.Pos) value {
 		return array(beBytes(uOf(c, a[0], pos), 32))
 	}
+	intrinsics[U+"WriteToSlice"] = func(c *Ctx, fr *frame, fn *ssa.Function, a []value, pos token.Pos) value {
+		// fills dest with the big-endian bytes of z: the low-order len(dest) bytes when dest is
+		// shorter than 32, the first 32 bytes of dest otherwise
+		dest := a[1].([]value)
+		be := beBytes(uOf(c, a[0], pos), 32)
+		n := len(dest)
+		if n > 32 {
+			n = 32
+		}
+		for i := 0; i < n; i++ {
+			dest[i] = be[32-n+i]
+		}
+		return nil
+	}
+	intrinsics[U+"WriteToArray32"] = func(c *Ctx, fr *frame, fn *ssa.Function, a []value, pos token.Pos) value {
+		p := a[1].(*value)
+		be := beBytes(uOf(c, a[0], pos), 32)
+		arr := make(array, 32)
+		for i := range arr {
+			arr[i] = be[i]
+		}
+		store(p, arr)
+		return nil
+	}
 	intrinsics[U+"Bytes20"] = func(c *Ctx, fr *frame, fn *ssa.Function, a []value, pos token.Pos) value {
 		return array(beBytes(Mod(uOf(c, a[0], pos), CInt(Pow2(160))), 20))
 	}
